@@ -180,6 +180,7 @@ def verify_case(eng, lib, con, case_name, make_case, monitors=(), setup=None):
         ctx.monitors = list(monitors)
         args = make_case(it)            # builds arguments + assumes the object/store invariant
         ctx.fs0, ctx.dirs0 = ctx.st.fs, ctx.st.dirs
+        ctx.assume_forall_loc(lib.typing(ctx.fs0, ctx.dirs0))
         if setup:
             setup(it)
         node = eng.funcs[q]
